@@ -579,3 +579,30 @@ def tmp_text(vc, kind, text, opt):
 
 tmp_text.shapes = lambda tier: [dict(kind=k, text=t, opt=o) for k in ("SendPrivateMessage", "SendGroupMessage") for t in TEXTS for o in (None, 0, 4)]
 tmp_text.native_all = True
+
+
+@contract("RadioIP.text_view", "okdmr.dmrlib.hytera.pdu.radio_ip:RadioIP.as_ip", ["C12", "C17"], bounded=True,
+          note="dotted-quad view of a radio address (socket.inet_ntoa / inet_aton: C code, text): as_ip / from_ip are inverse, both octet orders, "
+               "and the text - the key of the registration registry - determines subnet and id (native grid + random)")
+def radio_ip_text(vc):
+    if vc.mode != "native":
+        return
+    from okdmr.dmrlib.hytera.pdu.radio_ip import RadioIP
+
+    edge = [0, 1, 255, 256, 65535, 65536, 0x7FFFFF, 0x800000, 0xFFFFFE, 0xFFFFFF]
+    rid = vc.uint(24, "rid") if vc.uint(2, "e1") else edge[vc.uint(4, "k1") % len(edge)]
+    sub = vc.uint(8, "sub") if vc.uint(2, "e2") else [0, 1, 10, 127, 128, 255][vc.uint(3, "k2") % 6]
+    p = RadioIP(radio_id=rid, subnet=sub)
+    text = p.as_ip()
+    vc.prove("text_is_the_dotted_quad_of_subnet_and_id", text == "%d.%d.%d.%d" % (sub, rid >> 16, (rid >> 8) & 255, rid & 255) == str(p))
+    q = RadioIP.from_ip(text)
+    vc.prove("from_ip_inverts_as_ip", q.subnet == sub and q.radio_id == rid and q.as_bytes() == p.as_bytes())
+    r = RadioIP.from_ip(text, endian="little")
+    vc.prove("little_endian_reads_the_quad_backwards", r.as_bytes(endian="little") == p.as_bytes())
+    raw = p.as_bytes()
+    vc.prove("octets_are_subnet_then_id", raw == bytes([sub]) + rid.to_bytes(3, "big") and RadioIP.from_bytes(raw).as_ip() == text)
+    other = RadioIP(radio_id=vc.uint(24, "rid2"), subnet=vc.uint(8, "sub2"))
+    vc.prove("text_determines_the_address", (other.as_ip() == text) == (other.subnet == sub and other.radio_id == rid))
+
+
+radio_ip_text.native_random = 600
